@@ -77,7 +77,26 @@ def other_cmd(rng, family='plain'):
     return None
 
 
-def one(seed, cmd, k, fault, bcmd, bplace, family='plain'):
+def advance(run, s, micro):
+    """advance session s to its next parking point - or, micro, by ONE loop handle (every
+    suspension of the command's task is then a place where the fault can land, not only the
+    lock acquisitions)"""
+    if not micro:
+        run.step(s)
+        return
+    w = run.w
+    c = w.conns[s]
+    before = c.parked
+    if s in w.ck.parked:
+        w.ck.release(s)
+    elif c.writer.drain_fut is not None:
+        c.writer.release_drain()
+    w.loop.run_owner(s, max_handles=1)
+    run.note(e='step', s=s, frm=before or 'run', to=c.parked or 'rest', micro=True)
+    run.collect(s)
+
+
+def one(seed, cmd, k, fault, bcmd, bplace, family='plain', micro=False):
     """run `cmd` on session a, inject `fault` when a is at its k-th parking point
     (k = 0: before it starts running), b's command is issued when a is at parking
     point bplace and stepped alternately.  Returns (SyncRun, parking points of a)."""
@@ -102,7 +121,7 @@ def one(seed, cmd, k, fault, bcmd, bplace, family='plain'):
         points = 0
         injected = False
         b_issued = False
-        for _ in range(200):
+        for _ in range(200 if not micro else 2000):
             if points == bplace and bcmd is not None and not b_issued:
                 run.issue('b', bcmd)
                 b_issued = True
@@ -126,7 +145,7 @@ def one(seed, cmd, k, fault, bcmd, bplace, family='plain'):
                 break
             if not run.runnable('a'):
                 break
-            run.step('a')
+            advance(run, 'a', micro)
             points += 1
             if b_issued and run.busy('b') and run.runnable('b'):
                 run.step('b')
@@ -219,6 +238,28 @@ def main(tier: str) -> int:
                              'bplace': bplace, 'points': points, 'seed': seed})
                 for e in fr.errors:
                     run.notes.setdefault('harness_errors', []).append(e)
+    # micro family: the fault after EVERY loop handle of the command (a suspension that is not
+    # a lock acquisition - a yield, a drain - is a place to be cancelled too)
+    nmicro = 0
+    for cmd in (('append', 'INBOX', 3, ()), ('append', 'Box', 2, ('\\Seen',)),
+                ('move', False, '1:*', 'Box'), ('move', True, '101:102', 'Box2'),
+                ('copy', False, '1:*', 'Box'), ('expunge',)):
+        seed = rng.randrange(1 << 30)
+        clean, handles = one(seed, cmd, -1, 'none', None, 0, 'plain', micro=True)
+        traces.append(clean.events)
+        meta.append({'cmd': cmd, 'k': -1, 'fault': 'none', 'bcmd': None, 'points': handles,
+                     'seed': seed, 'family': 'micro'})
+        ks = list(range(1, handles + 1))
+        if tier == 'quick' and len(ks) > 40:
+            ks = sorted(rng.sample(ks, 40))
+        for k in ks:
+            for fault in ('cancel', 'drop'):
+                fr, _ = one(seed, cmd, k, fault, None, 0, 'plain', micro=True)
+                traces.append(fr.events)
+                meta.append({'cmd': cmd, 'k': k, 'fault': fault, 'bcmd': None, 'bplace': 0,
+                             'points': handles, 'seed': seed, 'family': 'micro'})
+                nmicro += 1
+    run.notes['micro_fault_runs'] = nmicro
     verdicts, vres = tlc.validate_total('Trace_Conserve.tla', 'Trace_Conserve.cfg', traces,
                                         known=sorted(run.known.open))
     if len(verdicts) != len(traces):
@@ -254,5 +295,12 @@ def classify(clause, m, events, line):
             return 'DictMoveWindow'
     if clause == 'C14_AppendAllOrNothing' and cmd[0] == 'append' and cmd[2] > 1 \
             and m['fault'] in ('cancel', 'raise') and 0 < m['k']:
-        return 'MultiAppendOneByOne'
+        # the finding: the fault lands while the command waits for the mailbox lock between two
+        # of its messages (a suspension anywhere else between them would be something new)
+        fault_at = next((i for i, e in enumerate(events) if e['e'] in ('cancel', 'drop', 'raise')
+                         and e.get('s') == 'a'), None)
+        prev = [e for e in events[:fault_at] if e['e'] == 'step' and e['s'] == 'a'] \
+            if fault_at is not None else []
+        if prev and str(prev[-1]['to']).startswith(('w:', 'r:')):
+            return 'MultiAppendOneByOne'
     return None
